@@ -248,3 +248,36 @@ Proof.
   intros Hm. assert (Hc : m = 1 \/ m = 2 \/ m = 3 \/ m = 4 \/ m = 5 \/ m = 6 \/ m = 7 \/ m = 8) by lia.
   destruct Hc as [->|[->|[->|[->|[->|[->|[->| ->]]]]]]]; reflexivity.
 Qed.
+
+(** ** the unit of the printed form: the largest of s, m, h, d, w, y that divides the duration *)
+Lemma unit_multiplier_values u U : unit_multiplier u = Some U ->
+  U = Second \/ U = Minute \/ U = Hour \/ U = Day \/ U = Week \/ U = Year.
+Proof.
+  unfold unit_multiplier.
+  repeat match goal with |- context [if ?b then _ else _] => destruct b end; intros H; inversion H; subst; auto 10.
+Qed.
+
+Theorem duration_string_largest_unit d : d <> 0 ->
+  exists u U, unit_multiplier u = Some U /\ Z.rem d U = 0 /\
+              duration_string d = print_int (Z.quot d U) ++ [u] /\
+              (forall u' U', unit_multiplier u' = Some U' -> U < U' -> Z.rem d U' <> 0).
+Proof.
+  intros Hd. unfold duration_string. apply Z.eqb_neq in Hd. rewrite Hd.
+  destruct (Z.rem d Year =? 0) eqn:Ey; [|apply Z.eqb_neq in Ey].
+  { apply Z.eqb_eq in Ey. exists 121, Year. split; [reflexivity|]. split; [exact Ey|]. split; [reflexivity|].
+    intros u' U' Hu Hlt. destruct (unit_multiplier_values u' U' Hu) as [-> | [-> | [-> | [-> | [-> | ->]]]]]; unfold Second, Minute, Hour, Day, Week, Year in *; lia. }
+  destruct (Z.rem d Week =? 0) eqn:Ew; [|apply Z.eqb_neq in Ew].
+  { apply Z.eqb_eq in Ew. exists 119, Week. split; [reflexivity|]. split; [exact Ew|]. split; [reflexivity|].
+    intros u' U' Hu Hlt. destruct (unit_multiplier_values u' U' Hu) as [-> | [-> | [-> | [-> | [-> | ->]]]]]; unfold Second, Minute, Hour, Day, Week, Year in *; try lia; exact Ey. }
+  destruct (Z.rem d Day =? 0) eqn:Ed; [|apply Z.eqb_neq in Ed].
+  { apply Z.eqb_eq in Ed. exists 100, Day. split; [reflexivity|]. split; [exact Ed|]. split; [reflexivity|].
+    intros u' U' Hu Hlt. destruct (unit_multiplier_values u' U' Hu) as [-> | [-> | [-> | [-> | [-> | ->]]]]]; unfold Second, Minute, Hour, Day, Week, Year in *; try lia; assumption. }
+  destruct (Z.rem d Hour =? 0) eqn:Eh; [|apply Z.eqb_neq in Eh].
+  { apply Z.eqb_eq in Eh. exists 104, Hour. split; [reflexivity|]. split; [exact Eh|]. split; [reflexivity|].
+    intros u' U' Hu Hlt. destruct (unit_multiplier_values u' U' Hu) as [-> | [-> | [-> | [-> | [-> | ->]]]]]; unfold Second, Minute, Hour, Day, Week, Year in *; try lia; assumption. }
+  destruct (Z.rem d Minute =? 0) eqn:Em; [|apply Z.eqb_neq in Em].
+  { apply Z.eqb_eq in Em. exists 109, Minute. split; [reflexivity|]. split; [exact Em|]. split; [reflexivity|].
+    intros u' U' Hu Hlt. destruct (unit_multiplier_values u' U' Hu) as [-> | [-> | [-> | [-> | [-> | ->]]]]]; unfold Second, Minute, Hour, Day, Week, Year in *; try lia; assumption. }
+  exists 115, Second. split; [reflexivity|]. split; [unfold Second; apply Z.rem_1_r|]. split; [unfold Second; now rewrite Z.quot_1_r|].
+  intros u' U' Hu Hlt. destruct (unit_multiplier_values u' U' Hu) as [-> | [-> | [-> | [-> | [-> | ->]]]]]; unfold Second, Minute, Hour, Day, Week, Year in *; try lia; assumption.
+Qed.
